@@ -143,6 +143,17 @@ static void run_case(int ntok, char **tok)
 			if (n && (r.data.max - r.data.len >= n || mpt_queue_prepare(&r.data, n))) mpt_qpush(&r.data, n, d);
 			free(d);
 		}
+		else if (!strcmp(op, "wopen")) {
+			/* an open block [code, data...] placed by a raw push (no encoder installed): the only way the
+			 * scratch bytes come to straddle the ring end, the state the out-of-band branch handles */
+			size_t n; uint8_t *d = vh_unhex(tok[t++], &n);
+			if (n && !w._state.scratch && w.data.max - w.data.len >= n) {
+				w._enc = 0;
+				(void) mpt_queue_push(&w, n, d);
+				w._enc = encs[v];
+			}
+			free(d);
+		}
 		else if (!strcmp(op, "recv")) { do_recv(); }
 		else if (!strcmp(op, "drain")) { pump(); }
 		else if (!strcmp(op, "peek") || !strcmp(op, "peekn")) {
